@@ -56,9 +56,15 @@ fn host(name: &str, cert: &str) -> TlsHostInfo {
 }
 
 /// the two versions of the hosts: (certificate of x.localhost, channel of x.localhost)
-const VERSIONS: [(&str, &str); 2] = [("c2", "ping"), ("c4", "tunnel")];
+/// (certificate, channel) of the SNI under hosts v0 and v1. Two directions of change: a ping host becoming a main host, and
+/// (FLIP) a main host becoming a ping host - so that a reader falling back to the bootstrap meta (tunnel channel) shows.
+static FLIP: std::sync::atomic::AtomicBool = std::sync::atomic::AtomicBool::new(false);
+fn versions() -> [(&'static str, &'static str); 2] {
+    if FLIP.load(std::sync::atomic::Ordering::Relaxed) { [("c4", "tunnel"), ("c2", "ping")] } else { [("c2", "ping"), ("c4", "tunnel")] }
+}
 
 fn hosts(version: usize) -> TlsHostsSettings {
+    let version = if FLIP.load(std::sync::atomic::Ordering::Relaxed) { 1 - version } else { version };
     if version == 0 {
         TlsHostsSettings::builder().main_hosts(vec![host("localhost", "c1")]).ping_hosts(vec![host(SNI, "c2")]).build().expect("hosts v0")
     } else {
@@ -193,14 +199,17 @@ struct Outcome {
     writer_seen_waiting: bool,
 }
 
-fn run_schedule(rt: &tokio::runtime::Runtime, n: u32, v: &Value, names: &Arc<HashMap<Vec<u8>, String>>) -> Result<Outcome, String> {
+/// `meet`: the reload is parked while it HOLDS the write lock and the reader is let go into it (the reader's read meets the
+/// writer: it waits for it and sees the new hosts); otherwise the reload runs to its end before the reader is let go
+fn run_schedule(rt: &tokio::runtime::Runtime, n: u32, v: &Value, names: &Arc<HashMap<Vec<u8>, String>>, meet: bool) -> Result<Outcome, String> {
+    FLIP.store(meet, std::sync::atomic::Ordering::Relaxed);
     let gate = v["gate"].as_str().unwrap().to_string();
     let quic = v["thread"] == "mux";
     let gname = gate_name(&gate).ok_or_else(|| format!("no sync point for gate {}", gate))?;
     let ver_of = |read: &str| -> Result<usize, String> { v["seen"][read].as_u64().map(|x| x as usize).ok_or_else(|| format!("the vector does not say which version read {} saw", read)) };
     // the certificate comes from the select-certificate callback (QUIC) / the one select of the TCP accept path,
     // the channel from the select of finalize_established_connection (QUIC) / the same select (TCP)
-    let (exp_cert, exp_chan) = if quic { (VERSIONS[ver_of("select")?].0, VERSIONS[ver_of("finalize")?].1) } else { (VERSIONS[ver_of("tcp")?].0, VERSIONS[ver_of("tcp")?].1) };
+    let (exp_cert, exp_chan) = if quic { (versions()[ver_of("select")?].0, versions()[ver_of("finalize")?].1) } else { (versions()[ver_of("tcp")?].0, versions()[ver_of("tcp")?].1) };
     let final_ver = v["ver"].as_u64().unwrap() as usize;
     let must_end = v["ends"].as_bool().unwrap();
 
@@ -210,7 +219,7 @@ fn run_schedule(rt: &tokio::runtime::Runtime, n: u32, v: &Value, names: &Arc<Has
     // the observation machinery itself: before any reload both transports are served by v0
     let s0 = visit_quic(addr, n * 8, names);
     let t0 = visit_tcp(addr, names);
-    let v0 = Ok((VERSIONS[0].0.to_string(), VERSIONS[0].1.to_string()));
+    let v0 = Ok((versions()[0].0.to_string(), versions()[0].1.to_string()));
     if s0 != v0 || t0 != v0 {
         ep.task.abort();
         return Err(format!("before any reload the endpoint does not serve hosts v0: QUIC {:?}, TCP {:?}", s0, t0));
@@ -227,11 +236,24 @@ fn run_schedule(rt: &tokio::runtime::Runtime, n: u32, v: &Value, names: &Arc<Has
     }
     // the reload is requested while the reader stands right before its read
     let core = ep.core;
+    const HOLD: &str = "tls_demux:reload:holding_write";
+    if meet { sync::arm(HOLD); }
     let reload = in_thread("reload", move || core.reload_tls_hosts_settings(hosts(1)).map_err(|e| e.to_string()));
     let t = Instant::now();
     let mut reload_result = None;
     let mut writer_seen_waiting = false;
-    while t.elapsed() < Duration::from_secs(2) {
+    if meet {
+        // the writer holds the lock; the reader walks into it; then the writer finishes
+        if !sync::wait_arrived(HOLD, WAIT) {
+            sync::reset();
+            ep.task.abort();
+            return Err("the reload did not reach its sync point while holding the write lock".into());
+        }
+        sync::release(gname);
+        std::thread::sleep(Duration::from_millis(150));
+        sync::release(HOLD);
+    }
+    while !meet && t.elapsed() < Duration::from_secs(2) {
         if let Ok(r) = reload.recv_timeout(Duration::from_millis(5)) {
             reload_result = Some(r);
             break;
@@ -263,7 +285,7 @@ fn run_schedule(rt: &tokio::runtime::Runtime, n: u32, v: &Value, names: &Arc<Has
         Err(_) => (),
     }
     // every later selection is served by the hosts in force
-    let fin = (VERSIONS[final_ver].0.to_string(), VERSIONS[final_ver].1.to_string());
+    let fin = (versions()[final_ver].0.to_string(), versions()[final_ver].1.to_string());
     let nm = names.clone();
     let later_q = in_thread("later-quic", move || visit_quic(addr, n * 8 + 2, &nm));
     let nm = names.clone();
@@ -331,7 +353,7 @@ fn main() {
     let mut n = 0u32;
     let mut failed = 0;
     'outer: for _ in 0..rounds {
-        for v in &vectors {
+        for (v, meet) in vectors.iter().flat_map(|v| [(v, false), (v, true)]) {
             // an endpoint that dead-locked keeps its threads: two such scenarios tell the story
             if failed >= 2 {
                 rep.count("not_run_after_failures", 1);
@@ -340,12 +362,12 @@ fn main() {
             n += 1;
             let gate = v["gate"].as_str().unwrap_or("?").to_string();
             rep.eval();
-            rep.nontrivial(format!("lock-schedule|{}", gate));
+            rep.nontrivial(format!("lock-schedule|{}|{}", gate, meet));
             rep.count(&format!("gate_{}", gate), 1);
-            let desc = json!({"reader_parked_before_read": gate, "thread": v["thread"], "then": "reload requested; the reader is let go once the reload returned or the lock is seen unavailable", "expected": v});
+            let desc = json!({"reader_parked_before_read": gate, "thread": v["thread"], "then": if meet { "reload requested and parked while it holds the write lock; the reader is let go into it; then the reload finishes" } else { "reload requested; the reader is let go once the reload returned or the lock is seen unavailable" }, "expected": v});
             let d2 = desc.clone();
             watchdog::enter(move || ("demux-locks:hang".into(), "a reload schedule did not finish".into(), d2));
-            let r = catch(|| run_schedule(&rt, n, v, &names)).unwrap_or_else(|p| Err(format!("harness panic: {}", p)));
+            let r = catch(|| run_schedule(&rt, n, v, &names, meet)).unwrap_or_else(|p| Err(format!("harness panic: {}", p)));
             watchdog::leave();
             match r {
                 Err(e) => {
@@ -360,7 +382,7 @@ fn main() {
                     if !o.problems.is_empty() {
                         failed += 1;
                         let texts: Vec<String> = o.problems.iter().map(|p| p.1.clone()).collect();
-                        rep.violation_with(format!("demux-locks:{}:{}", gate, o.problems[0].0), texts.join("; "), || json!({"schedule": desc, "problems": texts, "observed": o.observed}));
+                        rep.violation_with(format!("demux-locks:{}{}:{}", gate, if meet { ":meets-writer" } else { "" }, o.problems[0].0), texts.join("; "), || json!({"schedule": desc, "problems": texts, "observed": o.observed}));
                     } else {
                         rep.count("schedules_through", 1);
                     }
